@@ -226,7 +226,19 @@ class World:
         if step.startswith('-'):
             self.classes.add('write after the clock stepped backwards')
         k = len(self.written)
+        buf = self.cfg.get('bin_buf', 'bytes') if self.mode == 'bin' else 'bytes'
+        if buf.startswith('array') or buf == 'memoryview_array':
+            size = max(16, size + (-size % 8))      # whole items
         rec = record(self.mode, k, size, self.padset)
+        if buf != 'bytes':      # 'bin' takes anything with a buffer interface
+            import array
+            self.classes.add(f'bin record handed over as {buf}')
+            if buf == 'bytearray':
+                rec = bytearray(rec)
+            else:
+                a = array.array('d' if buf == 'array_d' else 'H')
+                a.frombytes(rec)
+                rec = memoryview(a) if buf == 'memoryview_array' else a
         will_roll = self.writer.write_file is None
         self.writer.write(rec, timestamp=(self.clock.us * 10 + sub) / 10_000_000 if given else None)
         self.written.append(size)
